@@ -44,7 +44,19 @@ mod verif_kani_excerpt {
         }
     }
 
+    /// model of `str::repeat` for harnesses with a SYMBOLIC repeat count only (CBMC 6.11 dies with SIGSEGV
+    /// in the real doubling loop of `<[u8]>::repeat` when the count is symbolic): n-fold `push_str`
+    fn repeat_model(s: &str, n: usize) -> String {
+        let mut out = String::with_capacity(32);
+        let mut k = 0;
+        while k < n { out.push_str(s); k += 1; }
+        out
+    }
+
     macro_rules! h {
+        ($(#[$doc:meta])* $name:ident, $unwind:literal, model_repeat, $body:block) => {
+            h!($(#[$doc])* #[kani::stub(str::repeat, repeat_model)] $name, $unwind, $body);
+        };
         ($(#[$doc:meta])* $name:ident, $unwind:literal, $body:block) => {
             $(#[$doc])*
             #[kani::proof]
@@ -181,6 +193,18 @@ mod verif_kani_excerpt {
     h!(c_nbsp_between, 16, { check(&['a', '\u{a0}', 'b'], 0, 2, 2); });
     h!(c_ideographic_indent, 16, { check(&['\u{3000}', 'a', 'b'], 0, 2, 2); });
     h!(c_ideographic_shift, 16, { check(&['a', '\u{3000}', ' ', ' ', 'b'], 0, 4, 4); });
+
+    // ---------------------------------------------------------------- concrete text, symbolic columns
+    h!(
+    /// text "  ab c" (concrete), every (start, end) with 2 <= start <= end < 6
+    k_cols, 16, model_repeat, {
+        let start: usize = kani::any();
+        let end: usize = kani::any();
+        kani::assume(2 <= start && start <= end && end < 6);
+        kani::cover!(start == 2 && end == 5, "whole line");
+        kani::cover!(start == 5 && end == 5, "last column");
+        check_with(&[' ', ' ', 'a', 'b', ' ', 'c'], 3, start, end, true);
+    });
 
     // ---------------------------------------------------------------- symbolic, ASCII blanks only
     h!(s2_ascii, 14, { symbolic::<2>(3, 6); });
